@@ -144,8 +144,88 @@ def run_cases(drv, cases, workdir, timeout=10, nproc=NPROC, extra_env=None, tag=
     return res
 
 
+def build_driver(name, srcs, variant, extra=""):
+    """Driver binary kept under build/drivers/<name>.<variant>.<treehash>: it links libnev.a statically,
+    so it survives the pruning of /verif/.cache by concurrent builds of other trees."""
+    ddir = os.path.join(common.BUILD, "drivers")
+    os.makedirs(ddir, exist_ok=True)
+    last = None
+    for attempt in range(4):
+        try:
+            lib = common.repobuild(variant)
+            h = os.path.basename(os.path.dirname(lib))
+            out = os.path.join(ddir, "%s.%s.%s" % (name, variant, h))
+            drv = common.cc_driver(name, srcs, lib, extra=extra, out=out)
+            old = sorted(glob.glob(os.path.join(ddir, "%s.%s.*" % (name, variant))), key=os.path.getmtime)
+            for o in [x for x in old if not x.endswith(".stamp") and x != out][:-3]:
+                for f in (o, o + ".stamp"):
+                    try:
+                        os.unlink(f)
+                    except OSError:
+                        pass
+            return drv
+        except (common.BuildError, OSError) as e:
+            last = e
+            time.sleep(1 + attempt)
+    raise common.BuildError(str(last))
+
+
+OCAML_EXE = {}
+
+
+def pin_ocaml(engine, workdir):
+    """Private copy of build/ocaml/<engine>/run, taken under the build lock: concurrent
+    bin/build-ocaml runs relink that file in place."""
+    src = os.path.join(common.BUILD, "ocaml", engine, "run")
+    dst = os.path.join(workdir, engine + "run")
+    for attempt in range(5):
+        try:
+            with common.Lock("ocaml"):
+                shutil.copy2(src, dst)
+            os.chmod(dst, 0o755)
+            OCAML_EXE[engine] = dst
+            return dst
+        except OSError:
+            time.sleep(1 + attempt)
+            common.ocaml_build()
+    raise common.BuildError("cannot copy %s" % src)
+
+
+def build_engine_privately(engine, workdir):
+    """Fallback when bin/build-ocaml fails on some OTHER engine: extract and link only this one."""
+    d = os.path.join(workdir, "ocaml_" + engine)
+    os.makedirs(d, exist_ok=True)
+    ex = os.path.join(common.COQ, "Extract", "Extract%s.v" % engine.capitalize())
+    rc, so, se = common.sh("coqc -Q %s NV %s -o %s/Extract%s.vo" % (common.COQ, ex, d, engine.capitalize()), cwd=d, timeout=300)
+    if rc != 0:
+        return None, so + se
+    for f in glob.glob(os.path.join(common.VERIF, "harness", "ocaml", engine, "*.ml")):
+        shutil.copy(f, d)
+    rc, so, se = common.sh("files=\"$(ocamlfind ocamldep -sort *.mli *.ml)\" && ocamlfind ocamlopt -O3 -w -a -package unix,str -linkpkg $files -o run 2>build.log"
+                           " || ocamlfind ocamlopt -w -a -package unix,str -linkpkg $files -o run", cwd=d, timeout=300)
+    if rc != 0:
+        return None, so + se
+    OCAML_EXE[engine] = os.path.join(d, "run")
+    return OCAML_EXE[engine], ""
+
+
+def get_ocaml(ctx, engine, workdir):
+    ok, log = common.ocaml_build()
+    if ok:
+        try:
+            return pin_ocaml(engine, workdir)
+        except common.BuildError:
+            pass
+    exe, log2 = build_engine_privately(engine, workdir)
+    if exe is None:
+        ctx.correspondence_broken("ocaml-build", (log + log2)[-2000:])
+    elif not ok:
+        ctx.notes["ocaml_build_note"] = "bin/build-ocaml failed on another engine; %s was extracted and linked privately" % engine
+    return exe
+
+
 def run_ocaml(mode, inp, engine="front"):
-    exe = os.path.join(common.BUILD, "ocaml", engine, "run")
+    exe = OCAML_EXE.get(engine) or os.path.join(common.BUILD, "ocaml", engine, "run")
     p = subprocess.run([exe] + ([mode] if mode else []), input=inp, stdout=subprocess.PIPE, stderr=subprocess.PIPE,
                        preexec_fn=limit_stack(1 << 30))
     return p.stdout.decode("latin-1")
@@ -1045,15 +1125,14 @@ def run(ctx):
         ctx.correspondence_broken("gen_frontconsts", g["problems"])
     ctx.proofs()
     ctx.coverage["partial"] = PARTIAL_TEXT
-    lib = common.repobuild("asan")
-    plain = common.repobuild("plain")
-    ok, log = common.ocaml_build()
-    if not ok:
-        ctx.correspondence_broken("ocaml-build", log[-2000:])
-        return
-    drv = common.cc_driver("compiledrive", ["front/compiledrive.c"], lib)
-    pdrv = common.cc_driver("compiledrive", ["front/compiledrive.c"], plain)
+    t1 = time.time()
+    drv = build_driver("compiledrive", ["front/compiledrive.c"], "asan")
+    pdrv = build_driver("compiledrive", ["front/compiledrive.c"], "plain")
     workdir = tempfile.mkdtemp(prefix="nvc05.", dir="/var/tmp")
+    if get_ocaml(ctx, "front", workdir) is None:
+        shutil.rmtree(workdir, ignore_errors=True)
+        return
+    ctx.coverage["timing_s"] = {"gen+coq": round(t1 - t0, 1), "builds": round(time.time() - t1, 1)}
     try:
         if getattr(ctx, "replay", None):
             replay_case(ctx, drv, workdir)
@@ -1066,10 +1145,12 @@ def run(ctx):
 def _run(ctx, drv, pdrv, workdir, t0):
     rng = random.Random(ctx.seed * 1000003 + 5)
     thorough = ctx.tier == "thorough"
+    t0s = time.time()
     scale = 8.0 if thorough else 1.0
     broken_before = len(ctx.broken)
     verdict = msgbuf_correspondence(ctx, drv, workdir)
     usestack_correspondence(ctx, drv, workdir, rng, scale)
+    t_ties = time.time()
     if len(ctx.broken) > broken_before:
         scale *= 2          # §4.4 step 3: a tie or an obligation broke -> search with a larger budget
     cases = build_search_cases(ctx, rng, workdir, scale)
@@ -1188,4 +1269,5 @@ def _run(ctx, drv, pdrv, workdir, t0):
     ctx.coverage["parser_memory_exhausted_diagnosed"] = memexh
     ctx.coverage["asan_only_stack_overflows_not_counted"] = asan_only
     ctx.coverage["distinct_failure_mechanisms"] = sorted(str(k) for k in findings) + ["stack-overflow:chain:%s" % n for n in sorted(chain_dead)]
-    ctx.coverage["timing_s"] = {"generate": round(t_gen - t0, 1), "run+classify": round(t_run - t_gen, 1), "total": round(time.time() - t0, 1)}
+    ctx.coverage["timing_s"].update({"ties": round(t_ties - t0s, 1), "generate": round(t_gen - t_ties, 1), "run+classify": round(t_run - t_gen, 1),
+                                     "confirm+shrink+report": round(time.time() - t_run, 1), "total": round(time.time() - t0, 1)})
